@@ -1,4 +1,5 @@
 import StorageModel.C10.Eval
+import StorageModel.C10.LexRules
 /-
   C10 — the whole of `ast.Parse(symbols, text)` as one function: reference lexer, reference
   recogniser, the listener's stack machine on the derivation's callbacks, symbol validation and
